@@ -27,7 +27,7 @@ ASSUMPTIONS = [
 ]
 
 HOSTILE = ['"', ";", "=", ",", "%", "\\", "[", "]", ":", "@", " ", "\t", "\x80", "\xff", "a", "1", "-", "/", "*"]
-NUMS = ["", "-1", "9" * 5000, "١", "1e5", "0x10", " 7", "+3"]
+NUMS = ["", "-1", "9" * 5000, "9" * 20, "99999", "4294967296", "0000", "١", "1e5", "0x10", " 7", "+3"]
 LONG = "x" * 3000
 
 BASES = {
@@ -62,7 +62,7 @@ def edits(s, tier, kind="header"):
         for n in NUMS:
             yield s[:m.start()] + n + s[m.end():]
     for m in re.finditer(r"(charset|boundary)=([^;]*)", s):
-        for v in ("nonsense", "", LONG, '"', "utf-16", "utf-8-sig", "idna", "undefined", "unicode_escape", "base64", "zlib", "punycode"):
+        for v in ("nonsense", "", LONG, '"', "utf-16", "utf-8-sig", "idna", "undefined", "unicode_escape", "base64", "zlib", "punycode", "utf\0-8", "\0", "utf-8\0"):
             yield s[:m.start(2)] + v + s[m.end(2):]
     yield s + LONG
     yield s * 50
@@ -350,7 +350,7 @@ def special_bodies():
     yield "application/json", b"1e999999", "json"
     yield "application/json", b"-" , "json"
     yield "application/json", b"NaN", "json"
-    for cs in ("nonsense", "", "utf-16", "utf-8-sig", "idna", "undefined", "unicode_escape", "base64", "zlib", "punycode", "latin-1", "ascii", "rot13", "hex", "utf-7", "cp65001"):
+    for cs in ("utf\0-8", "\0", "nonsense", "", "utf-16", "utf-8-sig", "idna", "undefined", "unicode_escape", "base64", "zlib", "punycode", "latin-1", "ascii", "rot13", "hex", "utf-7", "cp65001"):
         yield f"application/json; charset={cs}", JSON_BASE, "json"
         yield f"application/json; charset={cs}", b"\xff\xfe{}", "json"
         yield f"application/x-www-form-urlencoded; charset={cs}", FORM_BASE, "form"
